@@ -7,10 +7,10 @@ KEYWORD_TYPES = ["Context", "Action", "Outcome", "Conjunction", "Unknown"]
 KW_FOR_TYPE = {"Context": "Given ", "Action": "When ", "Outcome": "Then ", "Conjunction": "And ", "Unknown": "* "}
 
 DEFAULT = dict(
-    name=st.sampled_from(["s", "n <a>", "", "<b> and <a>", "x<c>y"]),
-    step_text=st.sampled_from(["t", "<a> t <b>", "<c>", "", "<a><a>", "no placeholder"]),
+    name=st.sampled_from(["s", "n <a>", "", "<b> and <a>", "x<c>y", "<A> <a>", "<B>"]),
+    step_text=st.sampled_from(["t", "<a> t <b>", "<c>", "", "<a><a>", "no placeholder", "<A> vs <a>"]),
     cell=st.sampled_from(["x", "<a>", "<b> <a>", "a.b", "", "<a><a>", "\\", "$1", "v"]),
-    header=st.sampled_from(["a", "b", "c", "a b"]),
+    header=st.sampled_from(["a", "b", "c", "a b", "A", "a"]),
     content=st.sampled_from(["", "<a>\n<b>", "c", "line1\n  line2\n"]),
     media=st.sampled_from(["<a>", "m", "text/<b>"]),
     tag=st.sampled_from(["@a", "@b", "@c", "@a", "@<a>", "@x<b>y", "@"]),
